@@ -45,6 +45,17 @@ def check(run):
     if s["cases"] != n:
         raise core.Inconclusive("body driver did not consume every case")
     tot["body"] = s
+    # ---- 1c. multi-valued holders: every sequence of <= 3 Add / Set / plural / Del calls on headers, query parameters, form fields
+    r = run.tlc_must_pass("ClientKV", "MC_ClientKV.cfg", workers=4, heap="4g", timeout=900, name="ClientKV")
+    cases = os.path.join(run.work, "c18_kv.ndjson")
+    recs = list(core.parse_cases(r["out"]))
+    if not thorough:
+        recs = recs[::8]
+    n = core.write_cases(recs, cases)
+    s = replay(run, binary, "TestC18KV", cases, "kv")
+    if s["cases"] != n:
+        raise core.Inconclusive("kv driver did not consume every case")
+    tot["kv"] = s
     # ---- 2. completion / timeout hand-off: design check, the original design must fail, every behaviour replayed
     r = run.tlc_must_pass("ClientCore", "MC_ClientCore.cfg", workers=4, heap="4g", timeout=900, name="ClientCore")
     m = run.tlc("ClientCore", "MC_ClientCore_orig.cfg", workers=4, heap="4g", timeout=900, name="ClientCore_orig")
